@@ -1,7 +1,8 @@
 ---------------------------- MODULE GenHist_Gen ----------------------------
 (* S->C for GenHist: TLC explores the process state machine -- from the empty  *)
 (* history, any call of Calls may follow, up to MaxLen calls -- and emits every *)
-(* history of two or more calls.  The runner executes each history in a process *)
+(* non-empty history (a history of one call = the same call in one more fresh *)
+(* process).  The runner executes each history in a process *)
 (* of its own and records the outputs; GenHist_Trace judges them.                *)
 EXTENDS GenHist, TLC, Json
 CONSTANTS Calls, MaxLen
@@ -10,5 +11,5 @@ VARIABLE hist
 Init == HInit(hist)
 Next == \E c \in Calls : Len(hist) < MaxLen /\ hist' = Append(hist, c)
 Spec == Init /\ [][Next]_hist
-Emit == Len(hist) >= 2 => PrintT(<<"VEC", ToJson([hist |-> hist])>>)
+Emit == Len(hist) >= 1 => PrintT(<<"VEC", ToJson([hist |-> hist])>>)
 =============================================================================
